@@ -31,8 +31,13 @@ class VfX(Exception):
     pass
 
 
+class VfM(VfX, VfB):
+    """Several direct bases: VfB (and VfA) are reached through the second
+    one only."""
+
+
 EXC = {c.__name__: c for c in (
-    VfA, VfB, VfC, VfX, KeyError, LookupError, ZeroDivisionError,
+    VfA, VfB, VfC, VfX, VfM, KeyError, LookupError, ZeroDivisionError,
     ArithmeticError, ValueError, TypeError, IndexError, RuntimeError,
     AttributeError, NameError, Exception)}
 
